@@ -273,7 +273,7 @@ func (e *Env) assumeLemmaQuantified(pkg *types.Package, name string) {
 		}
 		var pp []string
 		for _, p := range ps {
-			for _, q := range patternTerms(p) {
+			for _, q := range patternTerms(stripBoundItes(p)) {
 				pp = append(pp, e.hoistItes(q))
 			}
 		}
